@@ -3,6 +3,9 @@ package schema
 import (
 	"fmt"
 	"math/rand"
+
+	"google.golang.org/protobuf/proto"
+	"google.golang.org/protobuf/types/descriptorpb"
 )
 
 // RandomFiles builds n seeded random schema files over the same grammar as the feature matrix: 1-5
@@ -91,6 +94,7 @@ var RandomFiles = func(c *Ctx, seed uint64, n int) []*FileSpec {
 				m.NestedType = append(m.NestedType, nested)
 				m.Field = append(m.Field, F("nested", nextNum(), Opt, FullName(pkg, mn, "Nested")))
 			}
+			realOneofsFirst(m)
 			f.MessageType = append(f.MessageType, m)
 		}
 		if syntax == "proto2" && r.Intn(2) == 0 { // a message-typed extension declared in a top-level message
@@ -103,4 +107,38 @@ var RandomFiles = func(c *Ctx, seed uint64, n int) []*FileSpec {
 		out = append(out, &FileSpec{Name: name, FD: f, Feature: "random-schema", Core: true})
 	}
 	return out
+}
+
+// realOneofsFirst reorders the oneof declarations of m so that real oneofs precede the synthetic ones of
+// proto3 optional fields (a descriptor is only valid in that order) and re-indexes the fields.
+func realOneofsFirst(m *DP) {
+	synthetic := map[int32]bool{}
+	for _, f := range m.Field {
+		if f.OneofIndex != nil && f.GetProto3Optional() {
+			synthetic[f.GetOneofIndex()] = true
+		}
+	}
+	var order []int32
+	for i := range m.OneofDecl {
+		if !synthetic[int32(i)] {
+			order = append(order, int32(i))
+		}
+	}
+	for i := range m.OneofDecl {
+		if synthetic[int32(i)] {
+			order = append(order, int32(i))
+		}
+	}
+	remap := map[int32]int32{}
+	decls := make([]*descriptorpb.OneofDescriptorProto, len(order))
+	for newIdx, oldIdx := range order {
+		remap[oldIdx] = int32(newIdx)
+		decls[newIdx] = m.OneofDecl[oldIdx]
+	}
+	m.OneofDecl = decls
+	for _, f := range m.Field {
+		if f.OneofIndex != nil {
+			f.OneofIndex = proto.Int32(remap[f.GetOneofIndex()])
+		}
+	}
 }
